@@ -46,13 +46,18 @@ def chunks(sub: str = "tests") -> Iterator[tuple[str, int, str]]:
             yield rel, i, c
 
 
+_DIALECTS = None
+
+
 def fresh_ctx(allow_unregistered: bool = True):
     from xdsl.context import Context
     from xdsl.universe import Universe
 
+    global _DIALECTS
+    if _DIALECTS is None:  # entry-point discovery is slow (0.2 s); the table itself is immutable
+        _DIALECTS = dict(Universe.get_multiverse().all_dialects)
     ctx = Context(allow_unregistered=allow_unregistered)
-    multiverse = Universe.get_multiverse()
-    for name, factory in multiverse.all_dialects.items():
+    for name, factory in _DIALECTS.items():
         ctx.register_dialect(name, factory)
     return ctx
 
